@@ -52,9 +52,16 @@ def order_monitor(ctx, w, output, res, log, stale):
                 a, b = pos.get(("write", mj["store"])), pos.get(("write", m["store"]))
                 if res[0] == "ok" and (a is None or b is None or a > b):
                     ctx.fail("downstream-not-after-upstream", "stored node %d (downstream of rebuilt %d) was not rebuilt after it (%r, %r)" % (i, j, a, b), rep)
-    # a stale dependent source is read only after the calls it depends on have run
+    # a stale dependent source is read only after the calls it depends on have run and after the writes of the
+    # rebuilt stored values it depends on
     for i, m in enumerate(w.meta):
         if m["is_src"] and i in stale and ("read", m["store"]) in pos:
+            for j in m["deps"]:
+                mj = w.meta[j]
+                if mj["store"] is not None and not mj["is_src"] and j in stale:
+                    wr = pos.get(("write", mj["store"]))
+                    if wr is None or wr > pos[("read", m["store"])]:
+                        ctx.fail("stale-source-read-before-write", "out-of-date dependent source %d was read before the rebuilt value %d it depends on was written" % (i, j), rep)
             for j in m["deps"]:
                 if w.meta[j]["kind"] == "call" and w.meta[j]["store"] is None:
                     c = pos.get(("call", j))
@@ -69,15 +76,23 @@ def run(ctx):
     uj = core.use_repo()
     rng = ctx.rng
     tc = transform_corr.TransformCampaign(ctx)
-    for wi in range(ctx.n(70, 1500)):
-        w = cache_corr.World(uj, rng, maxn=ctx.n(8, 10), normalising=True)
+    specs = list(cache_corr.TARGETED.items()) * ctx.n(2, 6)
+    for wi in range(ctx.n(70, 1500) + len(specs)):
+        spec = specs[wi][1] if wi < len(specs) else None
+        w = cache_corr.World(uj, rng, maxn=ctx.n(8, 10), normalising=True, spec=spec)
         ctx.count("world_nodes", w.n)
         for step in range(ctx.n(4, 6)):
             output = rng.choice([None] + list(range(w.n)))
             fresh = cache_corr.random_fresh(w, rng)
             tc.observe(w, output, fresh, [wi, step])
             stale = set(w._stale_now)
-            res = w.run(output, fresh, workers=rng.choice([1, 3]), scheduler=rng.choice([None, "random"]))
+            # an identity transform_physical callback must not change anything (it receives the redirected output node)
+            tp = rng.choice([None, None, lambda pl, out: (pl, out)])
+            nw = rng.choice([1, 3])
+            w.slow_writes = 0.003 if nw > 1 else 0
+            res = w.run(output, fresh, workers=nw, scheduler=rng.choice([None, "random"]), transform=tp)
+            w.slow_writes = 0
+            ctx.count("transform_physical", tp is not None)
             order_monitor(ctx, w, output, res, list(w.log), stale)
             ctx.case((wi, step, tuple(str(x) for x in w.sigma()), output, fresh), nontrivial=len(stale) > 0,
                      sample={"meta": w.meta, "stale": sorted(stale), "log": [(a, b) for a, b, _ in w.log][:40]} if wi == 2 and step == 1 else None)
